@@ -391,6 +391,14 @@ class _StoreDomain(_Domain):
             self._flag(node, f'`{st.pending}` is not stored on return')
         if node.value is not None and self._pulls(node.value):
             self._flag(node, 'the element is returned, not stored')
+        if node.value is not None:
+            pulls = self._pulls(node.value)
+            for c in ast.walk(node.value):
+                if isinstance(c, ast.Attribute) and norm(c) == self.it and \
+                        not any(c is p.args[0] for p in pulls):
+                    self._flag(c, 'the iterator is handed out: whoever '
+                               'walks it takes elements the cache never '
+                               'sees')
         return [], st
 
 
